@@ -1,7 +1,8 @@
 \* thorough: all accounting and read-back clauses two edits deep, edits at all six nodes, rich parameters
-CONSTANTS NLeaf = 3  NBlk = 1  NAsm = 1  MaxLevel = 3  LMax = 20000  VMax = 100
+CONSTANTS NLeaf = 3  NBlk = 1  NAsm = 1  MaxLevel = 3  LSrc = 600  LMax = 20000  VMax = 100
 CONSTANTS Parent <- TBlkParent  Area <- TBlkArea  Height <- TBlkHeight  Sym <- TBlkSym  W <- Wt  N0 <- TBlkN0  H0 <- TBlkH0
 CONSTANTS Targets <- TBlkTargetsAll  Vals <- ValsT  Facs <- FacsT  Masses <- MassesT  Maps <- MapsT  FracMaps <- FracMapsT  AddMaps <- AddMapsT  SetMaps <- SetMapsT
+CONSTANTS AdjSets <- AdjSetsT  EnrFracs <- EnrFracsT  AdjMFs <- AdjMFsT
 CONSTANTS HDom <- HDom123  HTargets <- TBlkHAll  HVals <- HDom123
 CONSTANTS LeafVolCut <- LeafVolCutEnv  ScaleRaises <- ScaleRaisesEnv
 INIT InitB
